@@ -154,12 +154,12 @@ pub fn gen_case(rng: &mut Rng, o: &GenOpts, max_exchanges: usize) -> ExchangeCas
         reqs.push(ReqPlan {
             req: msggen::gen_request(rng, o),
             split: rng.chance(1, 3),
-            finish: true,
+            ..Default::default()
         });
         resps.push(RespPlan {
             resp: msggen::gen_response(rng, o),
             split: rng.chance(1, 3),
-            finish: true,
+            ..Default::default()
         });
     }
     ExchangeCase {
